@@ -156,14 +156,19 @@ class Executor(Engine, ExprMixin, StmtMixin, CallMixin):
         if m.endswith('{}') or m.endswith('[]'):
             base = self.eval_in(st, c, env, m[:-2])
             r = Val.r(base.t)
+            isref = Val.is_R(base.t)      # nothing to change when the container does not exist (None / absent attribute)
+
+            def upd(name, newval):
+                arr = self.harr(st, name)
+                st.heap[name] = Ite(isref, z3.Store(arr, r, newval), arr)
             if m.endswith('{}'):
-                st.heap['$DMAP'] = z3.Store(self.harr(st, '$DMAP'), r, fresh('hv_dmap', DMapInner))
+                upd('$DMAP', fresh('hv_dmap', DMapInner))
             else:
-                st.heap['$ELEM'] = z3.Store(self.harr(st, '$ELEM'), r, fresh('hv_elem', z3.ArraySort(IntS, Val)))
-                st.heap['$OFF'] = z3.Store(self.harr(st, '$OFF'), r, z3.IntVal(0))
+                upd('$ELEM', fresh('hv_elem', z3.ArraySort(IntS, Val)))
+                upd('$OFF', z3.IntVal(0))
             nl = fresh('hv_len', IntS)
             self.assume(st, nl >= 0)
-            st.heap['$LEN'] = z3.Store(self.harr(st, '$LEN'), r, nl)
+            upd('$LEN', nl)
             return
         base_expr, f = m.rsplit('.', 1)
         base = self.eval_in(st, c, env, base_expr)
@@ -360,7 +365,8 @@ class Executor(Engine, ExprMixin, StmtMixin, CallMixin):
                                     if fs is not None:
                                         self.assume(st, fs.assumption(nv))
                                     self.known_ref(st, nv)
-                                    self.store(st, Val.r(rt), fname, nv)
+                                    arr0 = self.harr(st, fname)      # nothing is stored when the result is None
+                                    st.heap[fname] = Ite(Val.is_R(rt), z3.Store(arr0, Val.r(rt), nv), arr0)
         else:
             self.known_ref(st, rt)
         res = V(rt, rspec)
@@ -522,12 +528,14 @@ class Executor(Engine, ExprMixin, StmtMixin, CallMixin):
             self.assume(st, And(wd, truth))
             if generalize:
                 # Invariants are proved inductive for an arbitrary, unconstrained ghost index, hence they hold at the
-                # loop head for every index; list.sort instantiates them at the permuted positions (calls.list_sort).
+                # loop head for every index; list.sort instantiates them at the permuted positions (calls.list_sort),
+                # dictionary reads inside the loop body instantiate them at the key that is read (exprs.getitem).
                 for g in spec.get('generalize', []):
                     if any(_re.search(r'\b%s\b' % _re.escape(g), r0) for r0 in c.requires):
                         raise EngineError('ghost %s is constrained by a precondition and cannot be generalised' % g)
                     if _re.search(r'\b%s\b' % _re.escape(g), inv):
-                        self.generalized.append((self.top_env[g].t, list(self.assumes[n0:])))
+                        target = self.generalized if generalize is True else self.generalized_keys
+                        target.append((self.top_env[g].t, list(self.assumes[n0:])))
 
     def havoc_loop(self, st, spec, body_stmts, extra_vars=()):
         c = self.cur_contract
@@ -553,7 +561,13 @@ class Executor(Engine, ExprMixin, StmtMixin, CallMixin):
                 st.vars[n] = V(old.t, parse_spec(tsp))
         env = dict(self.top_env)
         env.update({k: v for k, v in st.vars.items() if v is not UNBOUND})
-        self.havoc(st, c, env, spec.get('modifies', []))
+        for m in spec.get('modifies', []):
+            try:
+                self.havoc(st, c, env, [m])
+            except EngineError as e:
+                if 'unknown name' not in str(e):
+                    raise
+                # names a local the code does not have (any more): nothing to havoc, and loop_frame permits nothing for it
 
     def retype_locals(self, st, spec, body_stmts, name):
         names = self.assigned_names(body_stmts)
@@ -667,7 +681,9 @@ class Executor(Engine, ExprMixin, StmtMixin, CallMixin):
         st.vars[ivar] = V(mkI(iv), parse_spec('int'))
         n = length_of(st)
         self.assume(st, And(iv >= 0, iv <= n))
-        self.assume_inv(st, spec)
+        self.assume_inv(st, spec, generalize='body')
+        body_start = st.copy()
+        body_start_k = self.alloc_k
         if not is_str:
             head_elem = z3.Select(self.harr(st, '$ELEM'), r)
             head_off = self.list_off(st, r)
@@ -723,6 +739,7 @@ class Executor(Engine, ExprMixin, StmtMixin, CallMixin):
         self.merge_exit_states(st, conts)
         breaks = self.take_exits(start, lambda e: e.kind == 'break' and e.loop is loop_id)
         body_rec['n_end'] = len(self.assumes)
+        self.loop_frame(st, breaks, spec, name, body_start, body_start_k)
         if not st.dead():
             st.vars[ivar] = V(mkI(iv + 1), parse_spec('int'))
             # the iterated list itself must not change
@@ -741,6 +758,25 @@ class Executor(Engine, ExprMixin, StmtMixin, CallMixin):
         for b in breaks:
             b.state.vars.setdefault(ivar, V(mkI(iv), parse_spec('int')))
         self.merge_exit_states(st, breaks)
+
+    def loop_frame(self, st, breaks, spec, name, body_start, body_start_k):
+        """an iteration may change only what the loop specification declares (`modifies`) - objects allocated during the
+        iteration excepted; otherwise the state assumed after the loop would keep stale values"""
+        c = self.cur_contract
+        env = dict(self.top_env)
+        env.update({k: v for k, v in body_start.vars.items() if v is not UNBOUND})
+        mods = []
+        for m in spec.get('modifies', []):
+            try:
+                if not (m.startswith('*') or m.startswith('$')):
+                    self.eval_in(body_start, c, env, m[:-2] if m.endswith(('{}', '[]')) else m.rsplit('.', 1)[0])
+                mods.append(m)
+            except EngineError:
+                continue      # names a local the code does not have: permits nothing
+        states = ([st] if not st.dead() else []) + [b.state for b in breaks if not b.state.dead()]
+        for s2 in states:
+            self.frame_obligations(s2, c, env, body_start, modifies=mods, entry_heap=dict(body_start.heap),
+                                   prefix=name + '.frame', alloc_bound=self.alloc0 + body_start_k)
 
     def dict_order(self, st, dv):
         """Insertion-order view of a dict as a ghost list of its keys (uninterpreted, per dict state)."""
@@ -775,6 +811,8 @@ class Executor(Engine, ExprMixin, StmtMixin, CallMixin):
             self.fold_axioms(st, spec, Val.i(st.vars[spec['index']].t), True)
         c = self.truthy(st, self.eval(st, s.test))
         st.guard = And(st.guard, c)
+        body_start = st.copy()
+        body_start_k = self.alloc_k
         body_rec = {'name': name, 'guard': st.guard, 'cond': c, 'n_begin': len(self.assumes)}
         self.body_regions.append(body_rec)
         loop_id = object()
@@ -788,6 +826,7 @@ class Executor(Engine, ExprMixin, StmtMixin, CallMixin):
         self.merge_exit_states(st, conts)
         breaks = self.take_exits(start, lambda e: e.kind == 'break' and e.loop is loop_id)
         body_rec['n_end'] = len(self.assumes)
+        self.loop_frame(st, breaks, spec, name, body_start, body_start_k)
         if not st.dead():
             self.check_inv(st, spec, name, 'preserve', None)
         st.vars, st.heap, st.guard = after.vars, after.heap, after.guard
@@ -869,6 +908,7 @@ class Executor(Engine, ExprMixin, StmtMixin, CallMixin):
         body_names = set(env)
         self.ghost_ints = []
         self.generalized = []
+        self.generalized_keys = []
         self.body_regions = []
         for gname, gspec in c.ghost.items():
             env[gname] = self.make_param(st, gname, gspec)
@@ -960,10 +1000,11 @@ class Executor(Engine, ExprMixin, StmtMixin, CallMixin):
                                                    'no %s may escape (line %d)' % (exname, x.line)))
         return self.obligations
 
-    def frame_obligations(self, st, c, env, pre):
+    def frame_obligations(self, st, c, env, pre, modifies=None, entry_heap=None, prefix='frame', alloc_bound=None):
         allowed = {}
         whole = set()
-        for m in c.modifies:
+        entry_heap = self.entry_heap if entry_heap is None else entry_heap
+        for m in (c.modifies if modifies is None else modifies):
             m = m.strip()
             if m == '*[]':
                 whole.update(('$LEN', '$ELEM', '$OFF'))
@@ -982,19 +1023,19 @@ class Executor(Engine, ExprMixin, StmtMixin, CallMixin):
                 base = self.eval_in(pre, c, env, be)
                 allowed.setdefault(f, []).append(base)
         for f, arr in st.heap.items():
-            init = self.entry_heap.get(f)
+            init = entry_heap.get(f)
             if init is None:
                 init = self.init_arr(f)
             if arr is init or arr.eq(init) or f in whole:
                 continue
             if f.startswith('$') and f not in ('$LEN', '$ELEM', '$DMAP', '$OFF'):
-                self.oblige(st, 'frame.%s' % f, arr == init, 'ghost %s is not in modifies' % f)
+                self.oblige(st, '%s.%s' % (prefix, f), arr == init, 'ghost %s is not in modifies' % f)
                 continue
             rsk = fresh('frame_r', IntS)
-            conds = [rsk <= self.alloc0]
+            conds = [rsk <= (self.alloc0 if alloc_bound is None else alloc_bound)]
             for b in allowed.get(f, []):
                 conds.append(Not(And(Val.is_R(b.t), Val.r(b.t) == rsk)))
-            self.oblige(st, 'frame.%s' % f, z3.Implies(And(*conds), z3.Select(arr, rsk) == z3.Select(init, rsk)),
+            self.oblige(st, '%s.%s' % (prefix, f), z3.Implies(And(*conds), z3.Select(arr, rsk) == z3.Select(init, rsk)),
                         'only the declared objects may change in field %s' % f)
 
     def setup_globals(self):
